@@ -13,7 +13,7 @@ from vlib import build, corpus, driver, hostile, rigp, runner
 from vlib import ber_ref as B
 
 PID = "C01"
-OPS = ["get", "get_many", "getnext1", "getbulk1", "refresh"]
+OPS = ["get", "get_many", "getnext1", "getbulk1", "refresh", "getnext2", "getbulk2"]   # *2: the hostile reply is the SECOND one of a walk
 
 
 # ------------------------------------------------------------------ Rig P worker
@@ -34,6 +34,14 @@ def worker(job):
             spec = state["spec"]
             vb = B.enc_varbind((req.oids() or [hostile.OID])[0] + (1,), B.enc_int(424242))
             valid = agent.reply(req, [vb])
+            if state.get("second"):
+                # a walk: first an honest entry two levels below the base, then the hostile reply, then the end
+                state["nreq"] = state.get("nreq", 0) + 1
+                if state["nreq"] == 1:
+                    return agent.reply(req, [B.enc_varbind(hostile.OID + (1, 2), B.enc_int(1))])
+                if state["nreq"] > 2:
+                    return agent.reply(req, [B.enc_varbind(req.oids()[0], b"\x82\x00")]) if req.oids() else valid
+                valid = agent.reply(req, [B.enc_varbind(req.oids()[0], b"\x82\x00")]) if req.oids() else valid
             if spec is None:
                 return valid
             h = hostile.realize(agent, req, spec)
@@ -73,13 +81,14 @@ def worker(job):
                 res["skipped_na"] += 1
                 continue
             state["spec"], state["sent"] = spec, None
+            state["second"], state["nreq"] = op.endswith("2"), 0
             # refresh probes are answered by discovery_or unless raw_mode is on
             state["raw_mode"] = op == "refresh"
             if op == "refresh":
                 drv.s._to_refresh = True  # make the public refresh() actually probe
             prog.mark({"cfg": cfg.key(), "op": op, "spec": spec["label"]})
-            args = {"get": (oid,), "get_many": ([oid, oid + ".1"],), "getnext1": (oid,), "getbulk1": (oid,), "refresh": ()}[op]
-            out = drv.call(op, *args)
+            args = {"get": (oid,), "get_many": ([oid, oid + ".1"],), "getnext1": (oid,), "getbulk1": (oid,), "refresh": ()}.get(op, (oid,))
+            out = drv.call(op[:-1] if op.endswith("2") else op, *args, **({"limit": 20} if op.endswith("2") else {}))
             dur = drv.last_duration
             state["spec"] = None
             state["raw_mode"] = False
@@ -257,7 +266,11 @@ def rig_p(chk, tier, seed):
                 if op == "refresh" and cfg.version != "v3":
                     continue
                 sp = specs
-                if tier == "quick":
+                if op.endswith("2"):
+                    if cfg.version == "v1" and op == "getbulk2":
+                        continue
+                    sp = [s for s in specs if s["t"] in ("vbs", "pdu") and rng.random() < (0.5 if tier == "quick" else 1.0)]
+                elif tier == "quick":
                     # every structured spec, but a seeded 1/3 sample of the byte mutants per (cfg, op)
                     sp = [s for s in specs if s["t"] != "mut" or rng.random() < 0.34]
                 elif variant != "rel":
